@@ -27,7 +27,13 @@ echo "== (a) existing suite with the change" >>"$LOG"
 # the demonstration files are moved away so that only the existing tests run
 mkdir -p /tmp/demo-stash-$ID-$NAME
 (cd "$OUT/demo" && find . -type f ! -name README.md | while read f; do mv "$WT/$f" /tmp/demo-stash-$ID-$NAME/ 2>/dev/null; done)
-run_ns "cargo test --workspace --no-fail-fast --offline" >"$LOG.suite" 2>&1; a=$?
+# the three persistence integration tests start a server process on fixed ports and wait a fixed
+# time for it: they are run one at a time (with one retry) after the rest of the suite
+run_ns "cargo test --workspace --no-fail-fast --offline -- --skip grave_goods_and_last_will_are_presisted" >"$LOG.suite" 2>&1; a=$?
+for t in persistence_json persistence_redb persistence_sqlite; do
+    run_ns "cargo test -p worterbuch --offline --test $t" >"$LOG.$t" 2>&1 || { sleep 2; run_ns "cargo test -p worterbuch --offline --test $t" >"$LOG.$t" 2>&1; } || a=1
+    cat "$LOG.$t" >>"$LOG.suite"
+done
 passed=$(grep -E "^test result" "$LOG.suite" | awk '{p+=$4} END {print p+0}')
 failed=$(grep -E "^test result" "$LOG.suite" | awk '{f+=$6} END {print f+0}')
 rm -rf /tmp/demo-stash-$ID-$NAME
